@@ -98,7 +98,7 @@ func TestTrace(t *testing.T) {
 		default:
 			s := []rune{}
 			for k := 0; k < len(b); k++ {
-				s = append(s, []rune{'a', 'Z', '7', '_', ' ', 'é', '名', '😀', 0x202e, 0x1F1E9, 0xFFFD, 0x7f}[rng.Intn(12)])
+				s = append(s, []rune{'a', 'Z', '7', '_', ' ', 'é', '名', '😀', 0x202e, 0x1F1E9, 0xFFFD, 0x7f, 0x17f, 0x212a, 0x130, 0x131, 's', 'K'}[rng.Intn(18)])
 			}
 			b = []byte(string(s))
 		}
